@@ -160,6 +160,18 @@ def run(tier, seed, broken_proof=False):
             jid = "%s@%s" % (c["id"], ops.cfg_name(cfg))
             jobs.append((dict(c, id=jid), cfg, calls))
             expect[jid] = (c, cfg, calls)
+    # ... and queries over atoms of the signature that no conditional mentions, one after the other on one manager: whatever the first one
+    # registers (variable ids, cached CNFs) must not leak into the next (pool-id seeds)
+    fb = [(1, V(2), V(0)), (2, Not(V(2)), V(1)), (3, V(0), V(1)), (4, V(3), V(0))]          # birds over b,p,f,w with two further atoms x,y
+    fq1, fq2, fq3, fq4 = (V(4), V(0)), (V(5), V(4)), (V(5), V(0)), (V(2), And(V(1), V(4)))
+    for ti, cfg in enumerate([("system-w", "rc2"), ("lex_inf", "rc2"), ("c-inference", "rc2"), ("system-w", "z3"), ("lex_inf", "z3")]):
+        for oi, calls in enumerate(([([(3, fq1[0], fq1[1]), (5, fq2[0], fq2[1]), (8, fq3[0], fq3[1]), (11, fq4[0], fq4[1])], False)],
+                                    [([(4, fq1[0], fq1[1])], False), ([(9, fq2[0], fq2[1])], False), ([(2, fq4[0], fq4[1]), (6, fq3[0], fq3[1])], False)],
+                                    [([(6, fq2[0], fq2[1]), (1, fq1[0], fq1[1])], False), ([(7, fq3[0], fq3[1])], False)])):
+            c = make_case("fr%d_%d" % (ti, oi), 6, fb, [(1, fq1[0], fq1[1])], False)
+            jid = "%s@%s" % (c["id"], ops.cfg_name(cfg))
+            jobs.append((dict(c, id=jid), cfg, calls))
+            expect[jid] = (c, cfg, calls)
     # model answers: every distinct query asked alone on a fresh model
     mcases = []
     for jid, (c, cfg, calls) in expect.items():
